@@ -82,7 +82,7 @@ def run_params(prog):
             events.append({"op": "pl_init", "decl": [], "badkey": False, "out": "ok"})
         elif k == "declare":
             _, name, shape, namekind = op
-            key = name if namekind == "str" else (7 if name == "7" else (1, 2))
+            key = "".join(list(name)) if namekind == "str" else (7 if name == "7" else (1, 2))
             try:
                 pl.add_parameter(key, SHAPES[shape]())
             except Exception as e:  # noqa: BLE001
@@ -90,7 +90,7 @@ def run_params(prog):
             events.append({"op": "declare", "name": str(name), "shape": shape, "namekind": namekind, "out": outcome(exc)})
         elif k == "remove":
             try:
-                pl.remove_parameter(op[1])
+                pl.remove_parameter("".join(list(op[1])))      # an equal string built at run time, not the same object
             except Exception as e:  # noqa: BLE001
                 exc = e
             events.append({"op": "remove_param", "name": op[1], "out": outcome(exc)})
